@@ -112,6 +112,8 @@ type GoModel struct {
 	RootAssign token.Pos               // position of `rootGontainer = c`
 	Problems   []string
 	Imports    map[string]string // local name -> path
+	fset       *token.FileSet
+	posFn      func(token.Pos) string
 }
 
 func (m *GoModel) Service(name string) *Service {
@@ -136,15 +138,21 @@ func FromGo(p *load.Program, rel string) (*GoModel, error) {
 	if pk == nil {
 		return nil, fmt.Errorf("package %s not loaded", rel)
 	}
-	m := &GoModel{Pkg: pk, Helpers: map[types.Object]string{}, Imports: map[string]string{}}
+	var file *ast.File
 	for _, f := range pk.Syntax {
 		if ast.IsGenerated(f) {
-			m.File = f
+			file = f
 		}
 	}
-	if m.File == nil {
+	if file == nil {
 		return nil, fmt.Errorf("no generated file in %s", rel)
 	}
+	return FromFile(p.Fset, p.Pos, pk, file)
+}
+
+// FromFile extracts the model from one generated file of a type-checked package.
+func FromFile(fset *token.FileSet, posFn func(token.Pos) string, pk *packages.Package, file *ast.File) (*GoModel, error) {
+	m := &GoModel{Pkg: pk, Helpers: map[types.Object]string{}, Imports: map[string]string{}, File: file, fset: fset, posFn: posFn}
 	m.PkgName = m.File.Name.Name
 	for _, im := range m.File.Imports {
 		path, _ := strconv.Unquote(im.Path.Value)
@@ -183,24 +191,22 @@ func FromGo(p *load.Program, rel string) (*GoModel, error) {
 	if m.Ctor == nil || m.TypeName == "" {
 		return nil, fmt.Errorf("constructor or container type not found in generated file")
 	}
-	cm := ast.NewCommentMap(p.Fset, m.File, m.File.Comments)
-	_ = cm
-	m.parseCtor(p, info)
-	m.parseGetters(p, info)
+	m.parseCtor(info)
+	m.parseGetters(info)
 	return m, nil
 }
 
-func (m *GoModel) problem(p *load.Program, pos token.Pos, format string, a ...any) {
-	m.Problems = append(m.Problems, p.Pos(pos)+": "+fmt.Sprintf(format, a...))
+func (m *GoModel) problem(pos token.Pos, format string, a ...any) {
+	m.Problems = append(m.Problems, m.posFn(pos)+": "+fmt.Sprintf(format, a...))
 }
 
 // commentBefore returns the text of the line comment that ends on the line right above pos.
-func (m *GoModel) commentBefore(p *load.Program, pos token.Pos) (string, bool) {
-	line := p.Fset.Position(pos).Line
+func (m *GoModel) commentBefore(pos token.Pos) (string, bool) {
+	line := m.fset.Position(pos).Line
 	for _, cg := range m.File.Comments {
 		for _, c := range cg.List {
-			if p.Fset.Position(c.End()).Line == line-1 && strings.HasPrefix(c.Text, "//") {
-				if p.Fset.Position(c.Pos()).Line == line-1 {
+			if m.fset.Position(c.End()).Line == line-1 && strings.HasPrefix(c.Text, "//") {
+				if m.fset.Position(c.Pos()).Line == line-1 {
 					return strings.TrimSpace(strings.TrimPrefix(c.Text, "//")), true
 				}
 			}
@@ -209,18 +215,18 @@ func (m *GoModel) commentBefore(p *load.Program, pos token.Pos) (string, bool) {
 	return "", false
 }
 
-func (m *GoModel) parseCtor(p *load.Program, info *types.Info) {
+func (m *GoModel) parseCtor(info *types.Info) {
 	var cObj types.Object
 	for _, st := range m.Ctor.Body.List {
 		switch s := st.(type) {
 		case *ast.AssignStmt:
 			if len(s.Lhs) != 1 || len(s.Rhs) != 1 {
-				m.problem(p, s.Pos(), "unrecognised assignment in the constructor")
+				m.problem(s.Pos(), "unrecognised assignment in the constructor")
 				continue
 			}
 			lid, ok := s.Lhs[0].(*ast.Ident)
 			if !ok {
-				m.problem(p, s.Pos(), "unrecognised assignment target")
+				m.problem(s.Pos(), "unrecognised assignment target")
 				continue
 			}
 			if lid.Name == "_" {
@@ -242,7 +248,7 @@ func (m *GoModel) parseCtor(p *load.Program, info *types.Info) {
 						continue
 					}
 				}
-				m.problem(p, s.Pos(), "unrecognised helper definition %s", lid.Name)
+				m.problem(s.Pos(), "unrecognised helper definition %s", lid.Name)
 				continue
 			}
 			// rootGontainer = c
@@ -250,47 +256,47 @@ func (m *GoModel) parseCtor(p *load.Program, info *types.Info) {
 				m.RootAssign = s.Pos()
 				continue
 			}
-			m.problem(p, s.Pos(), "unrecognised assignment in the constructor")
+			m.problem(s.Pos(), "unrecognised assignment in the constructor")
 		case *ast.ExprStmt:
 			call, ok := s.X.(*ast.CallExpr)
 			if !ok {
-				m.problem(p, s.Pos(), "unrecognised statement")
+				m.problem(s.Pos(), "unrecognised statement")
 				continue
 			}
 			se, ok := ast.Unparen(call.Fun).(*ast.SelectorExpr)
 			if !ok {
-				m.problem(p, s.Pos(), "unrecognised call")
+				m.problem(s.Pos(), "unrecognised call")
 				continue
 			}
 			switch se.Sel.Name {
 			case "OverrideParam":
 				if len(call.Args) != 2 {
-					m.problem(p, s.Pos(), "OverrideParam arity")
+					m.problem(s.Pos(), "OverrideParam arity")
 					continue
 				}
 				name, _ := load.StringOf(info, call.Args[0])
-				prm := Param{Name: name, Dep: m.parseDep(p, info, call.Args[1])}
-				prm.Raw, _ = m.commentBefore(p, s.Pos())
+				prm := Param{Name: name, Dep: m.parseDep(info, call.Args[1])}
+				prm.Raw, _ = m.commentBefore(s.Pos())
 				m.Params = append(m.Params, prm)
 			case "AddDecorator":
 				if len(call.Args) < 2 {
-					m.problem(p, s.Pos(), "AddDecorator arity")
+					m.problem(s.Pos(), "AddDecorator arity")
 					continue
 				}
 				tag, _ := load.StringOf(info, call.Args[0])
 				d := Decorator{Tag: tag, Fn: call.Args[1], FnObj: exprObj(info, call.Args[1]), Pos: s.Pos()}
 				for _, a := range call.Args[2:] {
-					d.Args = append(d.Args, m.parseDep(p, info, a))
+					d.Args = append(d.Args, m.parseDep(info, a))
 				}
 				m.Decorators = append(m.Decorators, d)
 			default:
-				m.problem(p, s.Pos(), "unrecognised call %s in the constructor", se.Sel.Name)
+				m.problem(s.Pos(), "unrecognised call %s in the constructor", se.Sel.Name)
 			}
 		case *ast.BlockStmt:
-			m.parseService(p, info, s)
+			m.parseService(info, s)
 		case *ast.ReturnStmt:
 		default:
-			m.problem(p, st.Pos(), "unrecognised statement %T", st)
+			m.problem(st.Pos(), "unrecognised statement %T", st)
 		}
 	}
 }
@@ -305,9 +311,9 @@ func exprObj(info *types.Info, e ast.Expr) types.Object {
 	return nil
 }
 
-func (m *GoModel) parseService(p *load.Program, info *types.Info, b *ast.BlockStmt) {
+func (m *GoModel) parseService(info *types.Info, b *ast.BlockStmt) {
 	svc := Service{Pos: b.Pos(), CtorKind: "none"}
-	svc.Comment, _ = m.commentBefore(p, b.Pos())
+	svc.Comment, _ = m.commentBefore(b.Pos())
 	var sObj types.Object
 	for _, st := range b.List {
 		switch s := st.(type) {
@@ -320,16 +326,16 @@ func (m *GoModel) parseService(p *load.Program, info *types.Info, b *ast.BlockSt
 					}
 				}
 			}
-			m.problem(p, s.Pos(), "unrecognised assignment in a service block")
+			m.problem(s.Pos(), "unrecognised assignment in a service block")
 		case *ast.ExprStmt:
 			call, ok := s.X.(*ast.CallExpr)
 			if !ok {
-				m.problem(p, s.Pos(), "unrecognised statement in a service block")
+				m.problem(s.Pos(), "unrecognised statement in a service block")
 				continue
 			}
 			se, ok := ast.Unparen(call.Fun).(*ast.SelectorExpr)
 			if !ok {
-				m.problem(p, s.Pos(), "unrecognised call in a service block")
+				m.problem(s.Pos(), "unrecognised call in a service block")
 				continue
 			}
 			recv, _ := ast.Unparen(se.X).(*ast.Ident)
@@ -340,7 +346,7 @@ func (m *GoModel) parseService(p *load.Program, info *types.Info, b *ast.BlockSt
 			switch {
 			case onS && se.Sel.Name == "SetConstructor":
 				if len(call.Args) == 0 {
-					m.problem(p, s.Pos(), "SetConstructor without arguments")
+					m.problem(s.Pos(), "SetConstructor without arguments")
 					continue
 				}
 				svc.Ctor = call.Args[0]
@@ -352,16 +358,16 @@ func (m *GoModel) parseService(p *load.Program, info *types.Info, b *ast.BlockSt
 					svc.CtorObj = exprObj(info, call.Args[0])
 				}
 				for _, a := range call.Args[1:] {
-					svc.Args = append(svc.Args, m.parseDep(p, info, a))
+					svc.Args = append(svc.Args, m.parseDep(info, a))
 				}
 			case onS && se.Sel.Name == "SetField":
 				name, _ := load.StringOf(info, call.Args[0])
-				svc.Fields = append(svc.Fields, Field{Name: name, Val: m.parseDep(p, info, call.Args[1])})
+				svc.Fields = append(svc.Fields, Field{Name: name, Val: m.parseDep(info, call.Args[1])})
 			case onS && (se.Sel.Name == "AppendCall" || se.Sel.Name == "AppendWither"):
 				name, _ := load.StringOf(info, call.Args[0])
 				c := Call{Method: name, Immutable: se.Sel.Name == "AppendWither"}
 				for _, a := range call.Args[1:] {
-					c.Args = append(c.Args, m.parseDep(p, info, a))
+					c.Args = append(c.Args, m.parseDep(info, a))
 				}
 				svc.Calls = append(svc.Calls, c)
 			case onS && se.Sel.Name == "Tag":
@@ -379,17 +385,17 @@ func (m *GoModel) parseService(p *load.Program, info *types.Info, b *ast.BlockSt
 				svc.Name, _ = load.StringOf(info, call.Args[0])
 				svc.Order = append(svc.Order, "OverrideService")
 				if id, ok := ast.Unparen(call.Args[1]).(*ast.Ident); !ok || info.ObjectOf(id) != sObj {
-					m.problem(p, s.Pos(), "OverrideService does not register the block's service")
+					m.problem(s.Pos(), "OverrideService does not register the block's service")
 				}
 			default:
-				m.problem(p, s.Pos(), "unrecognised call %s in a service block", se.Sel.Name)
+				m.problem(s.Pos(), "unrecognised call %s in a service block", se.Sel.Name)
 			}
 		default:
-			m.problem(p, st.Pos(), "unrecognised statement %T in a service block", st)
+			m.problem(st.Pos(), "unrecognised statement %T in a service block", st)
 		}
 	}
 	if svc.Name == "" {
-		m.problem(p, b.Pos(), "service block without OverrideService")
+		m.problem(b.Pos(), "service block without OverrideService")
 	}
 	m.Services = append(m.Services, svc)
 }
@@ -415,9 +421,9 @@ func classifyCtorLit(fl *ast.FuncLit) string {
 	return "unknown"
 }
 
-func (m *GoModel) parseDep(p *load.Program, info *types.Info, e ast.Expr) Dep {
+func (m *GoModel) parseDep(info *types.Info, e ast.Expr) Dep {
 	d := Dep{Kind: "unknown", Expr: e, Pos: e.Pos(), Code: types.ExprString(e)}
-	d.Raw, d.RawOK = m.commentBefore(p, e.Pos())
+	d.Raw, d.RawOK = m.commentBefore(e.Pos())
 	call, ok := ast.Unparen(e).(*ast.CallExpr)
 	if !ok {
 		return d
@@ -564,7 +570,7 @@ func (m *GoModel) parseTok(info *types.Info, fl *ast.FuncLit) Tok {
 	return t
 }
 
-func (m *GoModel) parseGetters(p *load.Program, info *types.Info) {
+func (m *GoModel) parseGetters(info *types.Info) {
 	for _, d := range m.File.Decls {
 		fd, ok := d.(*ast.FuncDecl)
 		if !ok || fd.Recv == nil || fd.Body == nil || strings.HasPrefix(fd.Name.Name, "_") {
